@@ -15,7 +15,6 @@ use serde::{Deserialize, Serialize};
 use serde_json::{json, Value};
 use tari_bulletproofs_plus::{
     commitment_opening::CommitmentOpening,
-    range_proof::VerifyAction,
     range_statement::RangeStatement,
     range_witness::RangeWitness,
 };
